@@ -1,0 +1,39 @@
+//go:build verif
+
+/*
+ * Verification hooks, compiled only with the build tag "verif".
+ * They add observability for the runtime monitors under /verif and
+ * change no behaviour: without an installed callback verifPoint is a no-op.
+ */
+
+package log
+
+// VerifPointFn, when set (before any concurrent use), is invoked at the named
+// yield points placed between critical steps of the async logger and the
+// rolling file appender. Monitors use it to perturb schedules and count hits.
+var VerifPointFn func(name string)
+
+func verifPoint(name string) {
+	if f := VerifPointFn; f != nil {
+		f(name)
+	}
+}
+
+// VerifClearExpiredFiles runs the retention scan of this appender synchronously.
+func (c *RollingFileAppender) VerifClearExpiredFiles() {
+	c.clearExpiredFiles()
+}
+
+// VerifGlobals returns the loggers and appenders that are currently live
+// (created by the last successful Refresh and not yet destroyed).
+func VerifGlobals() ([]Logger, []Appender) {
+	ls := append([]Logger(nil), global.loggers...)
+	as := append([]Appender(nil), global.appenders...)
+	return ls, as
+}
+
+// VerifInner exposes the inner logger and appender references a
+// RollingFileLogger builds on Start (read-only use by monitors).
+func (f *RollingFileLogger) VerifInner() (Logger, []*AppenderRef) {
+	return f.logger, f.appenders
+}
